@@ -23,6 +23,7 @@ func NewPacketWriter(totalLen ...int) *Writer {
 }
 
 func (p2 *Writer) writeNumeric(p any) {
+	verifhook.Yield("writer.op")
 	if p2.opError != nil {
 		return
 	}
@@ -62,6 +63,7 @@ func (p2 *Writer) WriteUint64(p uint64) {
 }
 
 func (p2 *Writer) WriteBytes(data []byte) {
+	verifhook.Yield("writer.op")
 	if p2.opError != nil {
 		return
 	}
@@ -76,6 +78,7 @@ func (p2 *Writer) WriteBytes(data []byte) {
 }
 
 func (p2 *Writer) WriteString(s string) {
+	verifhook.Yield("writer.op")
 	if p2.opError != nil {
 		return
 	}
@@ -95,6 +98,7 @@ func (p2 *Writer) WriteString(s string) {
 }
 
 func (p2 *Writer) WriteCString(s string) {
+	verifhook.Yield("writer.op")
 	if p2.opError != nil {
 		return
 	}
@@ -124,6 +128,7 @@ func (p2 *Writer) WriteCString(s string) {
 }
 
 func (p2 *Writer) WriteFixedLenString(s string, n int) {
+	verifhook.Yield("writer.op")
 	if p2.opError != nil {
 		return
 	}
@@ -148,6 +153,7 @@ func (p2 *Writer) WriteFixedLenString(s string, n int) {
 }
 
 func (p2 *Writer) Bytes() (data []byte, err error) {
+	verifhook.Yield("writer.op")
 	if p2.opError != nil {
 		return nil, p2.opError
 	}
@@ -159,6 +165,7 @@ func (p2 *Writer) Bytes() (data []byte, err error) {
 }
 
 func (p2 *Writer) BytesWithLength() (data []byte, err error) {
+	verifhook.Yield("writer.op")
 	if p2.opError != nil {
 		return nil, p2.opError
 	}
